@@ -72,6 +72,7 @@ class C12(Prop):
                     T = sum(ls)
                     qs = [[a, b] for a in range(1, T + 3) for b in range(a, T + 3)]
                     yield {"gen": f"exhaustive/n={n}", "rows": rows, "queries": qs}
+        yield from self.giant_cases()
         for i in range(120 if tier == "quick" else 3000):
             n = rng.choice([1, 2, 3, 5, 8, 13, 21, 40])
             kinds = [rng.choice("FFG") for _ in range(n)]
@@ -104,6 +105,20 @@ class C12(Prop):
                 # the scaffold as it is now
                 yield {"gen": "grown-scaffold", "rows": rows, "queries": qs, "grow_from": rng.randint(1, n - 1),
                        "how": rng.choice(["add_row", "append_scaffold"])}
+
+    def giant_cases(self):
+        """scaffolds longer than 2^32 bp (coordinates are Python ints: nothing may assume 32 bits)"""
+        for ls in ([2**31, 7, 2**31 + 5], [3 * 10**9, 200, 3 * 10**9], [2**32 + 1], [5, 2**33, 9, 1]):
+            kinds = ["F" if i % 2 == 0 else "G" for i in range(len(ls))]
+            if len(ls) == 4:
+                kinds = ["F", "F", "G", "F"]
+            rows = build_rows(kinds, ls)
+            bounds = [0]
+            for x in ls:
+                bounds.append(bounds[-1] + x)
+            pts = sorted({max(1, p + d) for p in bounds for d in (-1, 0, 1)} | {bounds[-1] + 10})
+            qs = [[a, b] for a in pts for b in pts if a <= b]
+            yield {"gen": "giant", "rows": rows, "queries": qs}
 
     def run_impl(self, case):
         objs = [A.row_to_obj(r) for r in case["rows"]]
